@@ -30,7 +30,7 @@ UNITS = {
         widths=[16, 8],
         prelude='preludes/ctrl.rs',
         specs='contracts/ctrl.vspec',
-        lemmas=['lemmas/ctrl_lemmas.rs', 'lemmas/mask_lemmas.rs'],
+        lemmas=['lemmas/ctrl_lemmas.rs', 'lemmas/mask_lemmas.rs', 'lemmas/probe_lemmas.rs', 'lemmas/loop_lemmas.rs'],
         extra='ctrl_rules',
         items=[
             I(TAG, r'^impl Tag$', 'is_full', impl='Tag'),
@@ -51,6 +51,8 @@ UNITS = {
             I(RAW, r'^impl RawTableInner$', 'erase', impl='RawTableInner'),
             I(RAW, r'^impl RawTableInner$', 'find_insert_slot_in_group', impl='RawTableInner'),
             I(RAW, r'^impl RawTableInner$', 'fix_insert_slot', impl='RawTableInner'),
+            I(RAW, r'^impl ProbeSeq$', 'move_next', impl='ProbeSeq'),
+            I(RAW, r'^impl RawTableInner$', 'find_insert_slot', impl='RawTableInner'),
         ],
     ),
     'arith': dict(
@@ -195,7 +197,7 @@ def generate(unit_name, width, outdir):
                          sha256=item['sha'], tokens=item['ntokens']))
     prelude = open(os.path.join(VERIF, u['prelude'])).read().replace('@WIDTH@', str(width))
     parts = ['// GENERATED by /verif/lib/vunits.py from /repo working tree -- do not edit\n',
-             'use vstd::prelude::*;\n#[allow(unused_imports)]\nuse core::mem;\n#[allow(unused_imports)]\nuse vstd::arithmetic::power2::*;\n#[allow(unused_imports)]\nuse vstd::arithmetic::div_mod::*;\n#[allow(unused_imports)]\nuse vstd::arithmetic::mul::*;\n#[allow(unused_imports)]\nuse vstd::bits::*;\nverus! {\n', prelude, '\n']
+             'use vstd::prelude::*;\n#[allow(unused_imports)]\nuse core::mem;\n#[allow(unused_imports)]\nuse vstd::arithmetic::power2::*;\n#[allow(unused_imports)]\nuse vstd::arithmetic::div_mod::*;\n#[allow(unused_imports)]\nuse vstd::arithmetic::mul::*;\n#[allow(unused_imports)]\nuse vstd::bits::*;\n#[allow(unused_imports)]\nuse vstd::set_lib::*;\nverus! {\n', prelude, '\n']
     parts += [f + '\n\n' for f in free]
     for name, fns in impls.items():
         parts.append('impl %s {\n%s\n}\n\n' % (name, '\n\n'.join(fns)))
